@@ -363,7 +363,7 @@ pub fn secret(r: &mut Rng) -> Vec<u8> {
             ((1usize << k) + 8).saturating_sub(r.range(0, 40) as usize)
         }
         12 => r.range(1000, 1030) as usize,
-        13 if r.chance(1, 12) => *r.pick(&[65_533usize, 65_534, 65_535, 65_536, 65_537, 70_000]),
+        13 if r.chance(1, 60) => *r.pick(&[65_533usize, 65_534, 65_535, 65_536, 65_537, 70_000]),
         _ => r.range(0, 200) as usize,
     };
     let n = if super::small_sizes() { n.min(300) } else { n };
